@@ -28,7 +28,7 @@ CONFIG = {
     'quick': {'shards': 16, 'cases': 132, 'timeout': 600, 'floor': 360},
     'thorough': {'shards': 32, 'cases': 4000, 'timeout': 5400, 'floor': 20000},
 }
-REQUIRED = ['runs_with_progress_bar', 'updates_observed', 'rows_matched', 'mode_threshold', 'mode_quantile', 'mode_n_sim',
+REQUIRED = ['disc_dtype_i', 'disc_dtype_b', 'earlier_result_rechecked', 'runs_with_progress_bar', 'updates_observed', 'rows_matched', 'mode_threshold', 'mode_quantile', 'mode_n_sim',
             'ties_in_result', 'inf_consumed']
 
 BATCH_SIZES = [1, 2, 3, 5, 8, 16, 50]
@@ -44,7 +44,7 @@ def _objective(rng, spec, bs, n, seed):
         return mode, {'quantile': float(rng.choice([0.1, 0.25, 0.5, 0.9, 1.0]))}
     # threshold from a pilot so that acceptance ranges from rare to certain
     m = models.build(spec, name='pilot')
-    d = m.generate(300, outputs=['d'], seed=int(seed) + 17)['d']
+    d = np.asarray(m.generate(300, outputs=['d'], seed=int(seed) + 17)['d'], dtype=float)
     fin = np.sort(d[np.isfinite(d)])
     if len(fin) < 15:
         return 'n_sim', {'n_sim': int(max(n, rng.integers(n, 6 * n + 11)))}
@@ -58,7 +58,7 @@ def _objective(rng, spec, bs, n, seed):
 def gen_cases(ctx):
     rng = ctx.rng
     for _ in range(ctx.ncases):
-        spec = models.gen_spec(rng)
+        spec = models.gen_spec(rng, flavours=('cont', 'quant', 'inf', 'quantinf', 'int', 'bool') if rng.random() < 0.5 else ('cont', 'quant', 'inf', 'quantinf'))
         bs = int(rng.choice(BATCH_SIZES))
         n = int(rng.choice(N_SAMPLES))
         seed = int(rng.integers(0, 2 ** 31 - 1))
@@ -94,11 +94,12 @@ def check_result(ctx, case, n, mode, kw, hist, res, names):
         raise Violation('budget-batches', 'quantile=%s n=%d batch_size=%d consumed %d batches, expected %d' % (
             kw['quantile'], n, bs, B, math.ceil(math.ceil(n / kw['quantile']) / bs)))
     allrows = {k: np.concatenate([h[1][k] for h in hist]) for k in names}
-    D = allrows['d']
+    D = np.asarray(allrows['d'], dtype=float)
+    ctx.event('disc_dtype_' + np.asarray(allrows['d']).dtype.kind)
     if np.isinf(D).any():
         ctx.event('inf_consumed')
     elig = np.ones(len(D), bool) if mode != 'threshold' else D <= kw['threshold']
-    rd = np.asarray(res.outputs['d'])
+    rd = np.asarray(res.outputs['d'], dtype=float)
     for k in names:
         if len(res.outputs[k]) != n:
             raise Violation('length', 'output %s has %d rows, n_samples=%d' % (k, len(res.outputs[k]), n))
@@ -113,7 +114,8 @@ def check_result(ctx, case, n, mode, kw, hist, res, names):
         raise Violation('threshold', 'reported threshold %r != largest returned discrepancy %r' % (thr, rd[-1]))
 
     def key(src, i):
-        return tuple(np.ascontiguousarray(src[k][i]).tobytes() for k in names)
+        # the discrepancy is compared by value (an integer discrepancy may be returned in a float column), everything else byte-wise
+        return tuple(np.asarray(src[k][i], dtype=float).tobytes() if k == 'd' else np.ascontiguousarray(src[k][i]).tobytes() for k in names)
 
     pool = {}
     for i in np.where(elig)[0]:
@@ -161,7 +163,17 @@ def run_case(ctx, case):
     check_result(ctx, case, case['n'], case['mode'], case['kw'], hist, res, names)
     if 'again' in case:
         a = case['again']
+        first = {k: np.array(v, copy=True) for k, v in res.outputs.items()}
+        first_meta = (res.threshold, res.n_sim, res.n_batches)
         del hist[:]
         res2 = rej.sample(a['n'], bar=bool(case.get('bar')), **a['kw'])
         ctx.event('second_sample_calls')
         check_result(ctx, case, a['n'], a['mode'], a['kw'], hist, res2, names)
+        # the Sample returned by the first run must still be what it was
+        ctx.event('earlier_result_rechecked')
+        for k, v in first.items():
+            now = np.asarray(res.outputs[k])
+            if now.shape != v.shape or not np.array_equal(now, v, equal_nan=True):
+                raise Violation('earlier-result-overwritten', 'output %s of the Sample returned by the first sample() call changed during the second call on the same sampler' % k)
+        if (res.threshold, res.n_sim, res.n_batches) != first_meta and not (np.isnan(first_meta[0]) and np.isnan(res.threshold)):
+            raise Violation('earlier-result-overwritten', 'threshold/n_sim/n_batches of the first Sample changed during the second call')
